@@ -67,8 +67,10 @@ type Mut struct {
 // OverlapHostLens returns the hostname lengths of the k leases an overlap
 // save adds (pairwise different).
 func OverlapHostLens(base, k int) []int {
-	if base < 1 {
-		base = 1
+	if base < 14 {
+		// Long enough for the name to carry the number of the lease, i.e. to
+		// be unique in the table.
+		base = 14
 	}
 	if base > 190 {
 		base = 190
@@ -161,6 +163,11 @@ func HostName(seed, i, n int) string {
 	for len(s) > 60 {
 		labels = append(labels, s[:60])
 		s = s[60:]
+	}
+	// The last label must not be all digits (it would be taken for a numeric
+	// top-level domain and refused).
+	if strings.Trim(s, "0123456789") == "" {
+		s = "h" + s[1:]
 	}
 	labels = append(labels, s)
 	return strings.Join(labels, ".")
